@@ -15,9 +15,9 @@ from vlib import *
 from pegrun import *
 
 SLICES_QUICK = [("core", 4, 3, 3), ("ws", 8, 2, 3), ("stack", 4, 3, 4), ("counted", 2, 3, 4), ("builtin", 4, 3, 3),
-                ("skip", 8, 3, 3), ("factor", 4, 1, 4), ("restore", 6, 1, 4)]
+                ("skip", 8, 3, 3), ("factor", 4, 1, 4), ("restore", 6, 1, 4), ("pushws", 1, 1, 4)]
 SLICES_THOROUGH = [("core", 12, 4, 4), ("ws", 12, 3, 3), ("stack", 12, 4, 4), ("counted", 8, 4, 4), ("builtin", 12, 4, 3),
-                   ("skip", 12, 4, 4), ("factor", 8, 1, 5), ("restore", 8, 1, 5)]
+                   ("skip", 12, 4, 4), ("factor", 8, 1, 5), ("restore", 8, 1, 5), ("pushws", 2, 1, 5)]
 
 
 def classify(m):
